@@ -1,12 +1,24 @@
-import VOPyVerif.Proofs.CoveredGeom
+import VOPyVerif.Proofs.CoveredComplete
 /-!
 # C10 — "is covered" decides `∃ z ∈ R₁, ∃ z' ∈ R₂ : z' dominates z by the slack`
 
-Property theorems only (helper lemmas: `Proofs/LinCert.lean`, `Proofs/Covered.lean`,
-`Proofs/CoveredGeom.lean`).  They are about the executable definitions the driver runs
+Property theorems only (helper lemmas: `Proofs/LinCert.lean`, `Proofs/LinCertComplete.lean`,
+`Proofs/LinCertKKT.lean`, `Proofs/Covered.lean`, `Proofs/CoveredGeom.lean`,
+`Proofs/CoveredComplete.lean`).  They are about the executable definitions the driver runs
 (`Model/LinCert.lean`, `Model/Covered.lean`): every `1`/`0` the driver prints has been accepted by
 one of the checkers below, so it is a *theorem* about the exported (rational) inputs; the harness
 compares these certified verdicts with `confidence_region_is_covered`.
+
+Two layers:
+
+* **soundness** ("sound when it answers"): witness ⇒ ∃, Farkas ⇒ ¬∃, KKT ⇒ exact distance, and the
+  verdict functions built on them (`rect_verdict_sound`, `ball_verdict_sound`, `ell_verdict_sound`);
+* **decision** ("always answers"): Fourier–Motzkin elimination with multiplier tracking is complete
+  (`fm_complete`, `feasible_complete`, `feasible_decides`), the active-set search finds the KKT point
+  of every non-empty polyhedron (`nearest_complete`), hence the rectangle and the ball verdicts are
+  genuine decision procedures for `Coverable` over `ℝ`: `rect_isCovered_iff`, `rect_band_iff`,
+  `ball_isCovered_iff`, `ball_band_iff` — `inconclusive` is impossible on well-formed input.
+  (General ellipsoids stay certificate-checked: their certificates come from the harness.)
 
 Real vectors are lists (`RVec = List ℝ`); `castV` embeds the rational data.
 
@@ -332,6 +344,248 @@ projection, `ellVerdict` with proposed certificates) speak about the same sets w
 theorem ball_is_ell_identity (c : Vec) (a : ℚ) : ball c a = ell c (identMat c.length) a :=
   ball_eq_ell_identMat c a
 
+/-! ## Decision theorems: the searches are complete, the verdicts are total -/
+
+/-- **Fourier–Motzkin elimination with multiplier tracking is complete.**  For every rational system
+`A x ≥ b` whose rows have `n` coefficients, the plain elimination `solvePlain` returns either a point
+that `checkWitness` accepts or multipliers that `checkFarkas` accepts. -/
+theorem fm_complete (n : ℕ) (S : Sys) (hwf : wf n S = true) :
+    (∃ x, solvePlain n S = .witness x ∧ checkWitness n S x = true) ∨
+    (∃ y, solvePlain n S = .farkas y ∧ checkFarkas n S y = true) := by
+  cases h : solvePlain n S with
+  | witness x => exact Or.inl ⟨x, rfl, solvePlain_witness hwf h⟩
+  | farkas y => exact Or.inr ⟨y, rfl, solvePlain_farkas hwf h⟩
+
+/-- **The certified feasibility decision never answers `none`**: `feasibleC` (fast pruned search,
+then the complete search if that produced no accepted certificate) returns `some true` or
+`some false` for every well-formed system; so does the complete search `feasibleFM` alone. -/
+theorem feasible_complete (n : ℕ) (S : Sys) (hwf : wf n S = true) :
+    (feasibleC n S = some true ∨ feasibleC n S = some false) ∧
+    (feasibleFM n S = some true ∨ feasibleFM n S = some false) :=
+  ⟨feasibleC_complete n S hwf, feasibleFM_complete n S hwf⟩
+
+/-- **`feasibleC` decides feasibility over `ℝ`**: `some true` exactly when a real solution exists,
+`some false` exactly when none exists. -/
+theorem feasible_decides (n : ℕ) (S : Sys) (hwf : wf n S = true) :
+    (feasibleC n S = some true ↔ ∃ x : RVec, RSat n S x) ∧
+    (feasibleC n S = some false ↔ ¬ ∃ x : RVec, RSat n S x) :=
+  ⟨feasibleC_true_iff n S hwf, feasibleC_false_iff n S hwf⟩
+
+/-- **Farkas' lemma for rational data**, as a by-product: a well-formed system has a *rational*
+solution or non-negative rational multipliers `y` with `yᵀA = 0`, `yᵀb > 0` — never both; in
+particular a rational system with a real solution has a rational one. -/
+theorem farkas_lemma (n : ℕ) (S : Sys) (hwf : wf n S = true) :
+    ((∃ x : Vec, checkWitness n S x = true) ∨ (∃ y : Vec, checkFarkas n S y = true)) ∧
+    ¬ ((∃ x : Vec, checkWitness n S x = true) ∧ (∃ y : Vec, checkFarkas n S y = true)) ∧
+    ((∃ x : RVec, RSat n S x) → ∃ x : Vec, checkWitness n S x = true) := by
+  refine ⟨farkas_alternative n S hwf, ?_, rat_solution_of_real hwf⟩
+  rintro ⟨⟨x, hx⟩, ⟨y, hy⟩⟩
+  exact checkFarkas_sound hy ⟨castV x, checkWitness_sound hx⟩
+
+/-- **The active-set search for the nearest point is complete.**  For a well-formed system with a
+(rational) solution and a centre `c` of the right dimension, `nearest` returns a point with
+multipliers that `checkKKT` accepts: the nearest point of a non-empty rational polyhedron to a
+rational point exists, is rational, and has KKT multipliers supported on linearly independent active
+rows — which is exactly what the enumeration of active sets looks for. -/
+theorem nearest_complete (n : ℕ) (S : Sys) (c : Vec) (hwf : wf n S = true) (hc : c.length = n)
+    (hne : ∃ y : Vec, checkWitness n S y = true) :
+    ∃ x lam, nearest n S c = some (x, lam) ∧ checkKKT n S c x lam = true := by
+  obtain ⟨x, lam, h⟩ := LinCert.nearest_complete n S c hwf hc hne
+  exact ⟨x, lam, h, nearest_some h⟩
+
+/-- **The rectangle verdict is total**: with cone rows of `m` entries it is never `inconclusive`. -/
+theorem rect_verdict_total (W : Mat) (l1 u1 l2 u2 s t : Vec) (hW : ∀ w ∈ W, w.length = l1.length) :
+    rectVerdict W l1 u1 l2 u2 s t = .yes ∨ rectVerdict W l1 u1 l2 u2 s t = .no := by
+  have := rectVerdict_total W l1 u1 l2 u2 s t hW
+  cases h : rectVerdict W l1 u1 l2 u2 s t <;> simp_all
+
+/-- **The rectangle verdict decides the semantic predicate** (any per-facet margin `t`):
+`yes ↔ ∃ z ∈ [l₁,u₁], z' ∈ [l₂,u₂], W (z' − z − s) ≥ t` and `no ↔` no such pair. -/
+theorem rect_verdict_iff (W : Mat) (l1 u1 l2 u2 s t : Vec)
+    (h1 : u1.length = l1.length) (h2 : l2.length = l1.length) (h3 : u2.length = l1.length)
+    (hs : s.length = l1.length) (ht : W.length = t.length) (hW : ∀ w ∈ W, w.length = l1.length) :
+    (rectVerdict W l1 u1 l2 u2 s t = .yes ↔ Cov (box l1 u1) (box l2 u2) W s t) ∧
+    (rectVerdict W l1 u1 l2 u2 s t = .no ↔ ¬ Cov (box l1 u1) (box l2 u2) W s t) :=
+  ⟨rectVerdict_yes_iff W l1 u1 l2 u2 s t h1 h2 h3 hs ht hW,
+   rectVerdict_no_iff W l1 u1 l2 u2 s t h1 h2 h3 hs ht hW⟩
+
+/-- **`RectangularConfidenceRegion.is_covered`, model side, as a decision.**  For boxes of one
+dimension `m`, a cone matrix with `m` columns and any slack: the model answers
+
+* `1` exactly when the slack has an admissible size (1 or `m`) and some point of the second box
+  dominates some point of the first box shifted by the slack (`Coverable` over `ℝ`),
+* `0` exactly when the slack has an admissible size and no such pair exists,
+* `ValueError` exactly when the slack size is not admissible,
+
+and never `inconclusive`.  (`l ≤ u` is not needed: an empty box is not coverable and the verdict is
+`0`; for `l ≤ u` see `coverable_box_iff_diff`.) -/
+theorem rect_isCovered_iff (W : Mat) (l1 u1 l2 u2 slack : Vec)
+    (h1 : u1.length = l1.length) (h2 : l2.length = l1.length) (h3 : u2.length = l1.length)
+    (hm : ncols W = l1.length) (hW : ∀ w ∈ W, w.length = l1.length) :
+    (rectIsCovered W l1 u1 l2 u2 slack = some .yes ↔
+      ∃ s, expandSlack l1.length slack = some s ∧ Coverable (box l1 u1) (box l2 u2) W s) ∧
+    (rectIsCovered W l1 u1 l2 u2 slack = some .no ↔
+      ∃ s, expandSlack l1.length slack = some s ∧ ¬ Coverable (box l1 u1) (box l2 u2) W s) ∧
+    (rectIsCovered W l1 u1 l2 u2 slack = none ↔ expandSlack l1.length slack = none) ∧
+    rectIsCovered W l1 u1 l2 u2 slack ≠ some .inconclusive := by
+  unfold rectIsCovered
+  rw [hm]
+  cases hs : expandSlack l1.length slack with
+  | none => simp
+  | some s =>
+    have hsl := expandSlack_length hs
+    obtain ⟨hy, hn⟩ := rect_verdict_iff W l1 u1 l2 u2 s (zeros W.length) h1 h2 h3 hsl
+      (by simp [zeros]) hW
+    rw [cov_zero_margin_iff] at hy hn
+    simp only [Option.map_some, Option.some.injEq, reduceCtorEq, exists_eq_left', ne_eq, true_and]
+    exact ⟨hy, hn, rectVerdict_total W l1 u1 l2 u2 s _ hW⟩
+
+/-- `rect_isCovered_iff` for a slack of admissible size (`expandSlack` succeeds with `s`): the model
+answers `1` iff `Coverable box₁ box₂ W s` holds over `ℝ`, and `0` iff it does not. -/
+theorem rect_isCovered_decides (W : Mat) (l1 u1 l2 u2 slack s : Vec)
+    (h1 : u1.length = l1.length) (h2 : l2.length = l1.length) (h3 : u2.length = l1.length)
+    (hm : ncols W = l1.length) (hW : ∀ w ∈ W, w.length = l1.length)
+    (hs : expandSlack l1.length slack = some s) :
+    (rectIsCovered W l1 u1 l2 u2 slack = some .yes ↔ Coverable (box l1 u1) (box l2 u2) W s) ∧
+    (rectIsCovered W l1 u1 l2 u2 slack = some .no ↔ ¬ Coverable (box l1 u1) (box l2 u2) W s) := by
+  obtain ⟨hy, hn, -, -⟩ := rect_isCovered_iff W l1 u1 l2 u2 slack h1 h2 h3 hm hW
+  rw [hy, hn, hs]
+  simp
+
+/-- **The band verdicts are decisions too.**  `rectIsCoveredTol … τ` (every facet inequality
+tightened by the margin `τ`, any sign) answers `1` / `0` exactly according to
+`∃ z ∈ [l₁,u₁], z' ∈ [l₂,u₂], ∀ i, wᵢ·(z' − z − s) ≥ τ`, and never `inconclusive`.  Together with
+`coverable_mono_margin` this is the sandwich the harness uses: `1` at `+τ` ⇒ coverable ⇒ `1` at
+`−τ`. -/
+theorem rect_band_iff (W : Mat) (l1 u1 l2 u2 slack : Vec) (tau : ℚ)
+    (h1 : u1.length = l1.length) (h2 : l2.length = l1.length) (h3 : u2.length = l1.length)
+    (hm : ncols W = l1.length) (hW : ∀ w ∈ W, w.length = l1.length) :
+    (rectIsCoveredTol W l1 u1 l2 u2 slack tau = some .yes ↔
+      ∃ s, expandSlack l1.length slack = some s ∧
+        Cov (box l1 u1) (box l2 u2) W s (List.replicate W.length tau)) ∧
+    (rectIsCoveredTol W l1 u1 l2 u2 slack tau = some .no ↔
+      ∃ s, expandSlack l1.length slack = some s ∧
+        ¬ Cov (box l1 u1) (box l2 u2) W s (List.replicate W.length tau)) ∧
+    rectIsCoveredTol W l1 u1 l2 u2 slack tau ≠ some .inconclusive := by
+  unfold rectIsCoveredTol
+  rw [hm]
+  cases hs : expandSlack l1.length slack with
+  | none => simp
+  | some s =>
+    have hsl := expandSlack_length hs
+    obtain ⟨hy, hn⟩ := rect_verdict_iff W l1 u1 l2 u2 s (List.replicate W.length tau) h1 h2 h3 hsl
+      (by simp) hW
+    simp only [Option.map_some, Option.some.injEq, exists_eq_left', ne_eq]
+    exact ⟨hy, hn, rectVerdict_total W l1 u1 l2 u2 s _ hW⟩
+
+/-- **The certified rectangle verdicts are monotone in the margin** (what the harness's
+`model-monotone` assertion checks at run time): for `τ ≤ τ'`, `1` at the larger margin `τ'` forces
+`1` at `τ`, and `0` at `τ` forces `0` at `τ'`. -/
+theorem rect_band_monotone (W : Mat) (l1 u1 l2 u2 slack : Vec) (tau tau' : ℚ) (hle : tau ≤ tau')
+    (h1 : u1.length = l1.length) (h2 : l2.length = l1.length) (h3 : u2.length = l1.length)
+    (hm : ncols W = l1.length) (hW : ∀ w ∈ W, w.length = l1.length) :
+    (rectIsCoveredTol W l1 u1 l2 u2 slack tau' = some .yes →
+      rectIsCoveredTol W l1 u1 l2 u2 slack tau = some .yes) ∧
+    (rectIsCoveredTol W l1 u1 l2 u2 slack tau = some .no →
+      rectIsCoveredTol W l1 u1 l2 u2 slack tau' = some .no) := by
+  obtain ⟨hy, hn, -⟩ := rect_band_iff W l1 u1 l2 u2 slack tau h1 h2 h3 hm hW
+  obtain ⟨hy', hn', -⟩ := rect_band_iff W l1 u1 l2 u2 slack tau' h1 h2 h3 hm hW
+  have mono : ∀ s, Cov (box l1 u1) (box l2 u2) W s (List.replicate W.length tau') →
+      Cov (box l1 u1) (box l2 u2) W s (List.replicate W.length tau) := fun s =>
+    cov_mono_margin _ _ W s _ _ (forall₂_replicate_le _ tau tau' hle)
+  constructor
+  · intro h
+    obtain ⟨s, hs, hc⟩ := hy'.1 h
+    exact hy.2 ⟨s, hs, mono s hc⟩
+  · intro h
+    obtain ⟨s, hs, hc⟩ := hn.1 h
+    exact hn'.2 ⟨s, hs, fun hc' => hc (mono s hc')⟩
+
+/-- **The ball verdict is total** under the guard of the model (radii `≥ 0`, centres of one
+dimension `m`, cone rows with `m` entries). -/
+theorem ball_verdict_total (W : Mat) (c1 c2 t : Vec) (a1 a2 : ℚ) (ha1 : 0 ≤ a1) (ha2 : 0 ≤ a2)
+    (hc : c2.length = c1.length) (hW : ∀ w ∈ W, w.length = c1.length) :
+    ballVerdict W c1 a1 c2 a2 t = .yes ∨ ballVerdict W c1 a1 c2 a2 t = .no := by
+  have := ballVerdict_total W c1 c2 t a1 a2 ha1 ha2 hc hW
+  cases h : ballVerdict W c1 a1 c2 a2 t <;> simp_all
+
+/-- **The ball verdict decides coverability of two balls** (per-facet slack `t`): `yes ↔` some
+`z ∈ B(c₁,a₁)`, `z' ∈ B(c₂,a₂)` satisfy `W (z' − z) ≥ t`, `no ↔` none do. -/
+theorem ball_verdict_iff (W : Mat) (c1 c2 t : Vec) (a1 a2 : ℚ) (ha1 : 0 ≤ a1) (ha2 : 0 ≤ a2)
+    (hc : c2.length = c1.length) (hW : ∀ w ∈ W, w.length = c1.length) (ht : W.length = t.length) :
+    (ballVerdict W c1 a1 c2 a2 t = .yes ↔ CoverableFacet (ball c1 a1) (ball c2 a2) W t) ∧
+    (ballVerdict W c1 a1 c2 a2 t = .no ↔ ¬ CoverableFacet (ball c1 a1) (ball c2 a2) W t) := by
+  have e := cov_zero_shift_iff c1.length (ball c1 a1) (ball c2 a2) W t ball_length
+    (fun z hz => (ball_length z hz).trans hc)
+  rw [← e]
+  exact ⟨ballVerdict_yes_iff W c1 c2 t a1 a2 ha1 ha2 hc hW ht,
+    ballVerdict_no_iff W c1 c2 t a1 a2 ha1 ha2 hc hW ht⟩
+
+/-- **`EllipsoidalConfidenceRegion.is_covered` for `Σ = I`, model side, as a decision** (and its
+band versions: `τ = 0` is the exact statement).  Under the guard (radii `≥ 0`, one dimension, cone
+rows of that dimension) the model answers `1` / `0` exactly according to whether the slack has an
+admissible size (1 or the number of facets) and the two balls are coverable with the per-facet slack
+`t + τ`; it answers `ValueError` exactly for an inadmissible slack size and never `inconclusive`. -/
+theorem ball_band_iff (W : Mat) (c1 c2 slack : Vec) (a1 a2 tau : ℚ) (ha1 : 0 ≤ a1) (ha2 : 0 ≤ a2)
+    (hc : c2.length = c1.length) (hW : ∀ w ∈ W, w.length = c1.length) :
+    (ballIsCoveredTol W c1 a1 c2 a2 slack tau = some .yes ↔
+      ∃ t, expandSlack W.length slack = some t ∧
+        CoverableFacet (ball c1 a1) (ball c2 a2) W (t.map (· + tau))) ∧
+    (ballIsCoveredTol W c1 a1 c2 a2 slack tau = some .no ↔
+      ∃ t, expandSlack W.length slack = some t ∧
+        ¬ CoverableFacet (ball c1 a1) (ball c2 a2) W (t.map (· + tau))) ∧
+    (ballIsCoveredTol W c1 a1 c2 a2 slack tau = none ↔ expandSlack W.length slack = none) ∧
+    ballIsCoveredTol W c1 a1 c2 a2 slack tau ≠ some .inconclusive := by
+  unfold ballIsCoveredTol
+  cases hs : expandSlack W.length slack with
+  | none => simp
+  | some t =>
+    have htl := expandSlack_length hs
+    obtain ⟨hy, hn⟩ := ball_verdict_iff W c1 c2 (t.map (· + tau)) a1 a2 ha1 ha2 hc hW
+      (by simp [htl])
+    simp only [Option.map_some, Option.some.injEq, reduceCtorEq, exists_eq_left', ne_eq, true_and]
+    exact ⟨hy, hn, ballVerdict_total W c1 c2 _ a1 a2 ha1 ha2 hc hW⟩
+
+/-- **The certified ball verdicts are monotone in the margin**: for `τ ≤ τ'`, `1` at `τ'` forces `1`
+at `τ`, and `0` at `τ` forces `0` at `τ'`. -/
+theorem ball_band_monotone (W : Mat) (c1 c2 slack : Vec) (a1 a2 tau tau' : ℚ) (hle : tau ≤ tau')
+    (ha1 : 0 ≤ a1) (ha2 : 0 ≤ a2) (hc : c2.length = c1.length)
+    (hW : ∀ w ∈ W, w.length = c1.length) :
+    (ballIsCoveredTol W c1 a1 c2 a2 slack tau' = some .yes →
+      ballIsCoveredTol W c1 a1 c2 a2 slack tau = some .yes) ∧
+    (ballIsCoveredTol W c1 a1 c2 a2 slack tau = some .no →
+      ballIsCoveredTol W c1 a1 c2 a2 slack tau' = some .no) := by
+  obtain ⟨hy, hn, -, -⟩ := ball_band_iff W c1 c2 slack a1 a2 tau ha1 ha2 hc hW
+  obtain ⟨hy', hn', -, -⟩ := ball_band_iff W c1 c2 slack a1 a2 tau' ha1 ha2 hc hW
+  have mono : ∀ t : Vec, CoverableFacet (ball c1 a1) (ball c2 a2) W (t.map (· + tau')) →
+      CoverableFacet (ball c1 a1) (ball c2 a2) W (t.map (· + tau)) := fun t =>
+    coverableFacet_mono _ _ W _ _ (forall₂_map_add_le t tau tau' hle)
+  constructor
+  · intro h
+    obtain ⟨t, ht, hcv⟩ := hy'.1 h
+    exact hy.2 ⟨t, ht, mono t hcv⟩
+  · intro h
+    obtain ⟨t, ht, hcv⟩ := hn.1 h
+    exact hn'.2 ⟨t, ht, fun hc' => hcv (mono t hc')⟩
+
+/-- the exact (`τ = 0`) form of `ball_band_iff` for `ballIsCovered` -/
+theorem ball_isCovered_iff (W : Mat) (c1 c2 slack : Vec) (a1 a2 : ℚ) (ha1 : 0 ≤ a1) (ha2 : 0 ≤ a2)
+    (hc : c2.length = c1.length) (hW : ∀ w ∈ W, w.length = c1.length) :
+    (ballIsCovered W c1 a1 c2 a2 slack = some .yes ↔
+      ∃ t, expandSlack W.length slack = some t ∧ CoverableFacet (ball c1 a1) (ball c2 a2) W t) ∧
+    (ballIsCovered W c1 a1 c2 a2 slack = some .no ↔
+      ∃ t, expandSlack W.length slack = some t ∧ ¬ CoverableFacet (ball c1 a1) (ball c2 a2) W t) ∧
+    (ballIsCovered W c1 a1 c2 a2 slack = none ↔ expandSlack W.length slack = none) ∧
+    ballIsCovered W c1 a1 c2 a2 slack ≠ some .inconclusive := by
+  unfold ballIsCovered
+  cases hs : expandSlack W.length slack with
+  | none => simp
+  | some t =>
+    have htl := expandSlack_length hs
+    obtain ⟨hy, hn⟩ := ball_verdict_iff W c1 c2 t a1 a2 ha1 ha2 hc hW (by simp [htl])
+    simp only [Option.map_some, Option.some.injEq, reduceCtorEq, exists_eq_left', ne_eq, true_and]
+    exact ⟨hy, hn, ballVerdict_total W c1 c2 _ a1 a2 ha1 ha2 hc hW⟩
+
 /-! ## Non-vacuity: concrete instances evaluated by the kernel -/
 
 /-- the unit box is covered by `[2,3]²` under the orthant order, even with margin 1 on each facet -/
@@ -359,6 +613,50 @@ example : checkEllSep [[1, 0], [0, 1]] [3, 3] [[1, 0], [1/2, 1]] 1 [0, 0] [[1, 0
       [0, 0] [1, 1] = true ∧
     checkEllWitness [[1, 0], [0, 1]] [0, 0] [[1, 0], [1/2, 1]] 1 [1, 1] [[1, 0], [0, 1/2]] 1
       [0, 0] [1/2, 0] [1/2, 1/2] = true := by
+  decide +kernel
+
+/-- the complete search answers on its own: a feasible and an infeasible system in two unknowns
+(`x ≥ 0, y ≥ 0, −x − y ≥ −1` and the same with `−x − y ≥ 1`) -/
+example : feasibleFM 2 [⟨[1, 0], 0⟩, ⟨[0, 1], 0⟩, ⟨[-1, -1], -1⟩] = some true ∧
+    feasibleFM 2 [⟨[1, 0], 0⟩, ⟨[0, 1], 0⟩, ⟨[-1, -1], 1⟩] = some false := by
+  decide +kernel
+
+/-- … and on the full LP of the code for the boxes of the first two examples (the fallback path of
+`rectVerdict`, which the fast path never reaches in practice) -/
+example : feasibleFM 4 (rectSys [[1, 0], [0, 1]] [0, 0] [1, 1] [2, 2] [3, 3] [0, 0] [1, 1]) =
+      some true ∧
+    feasibleFM 4 (rectSys [[1, 0], [0, 1]] [2, 2] [3, 3] [0, 0] [1, 1] [0, 0] [0, 0]) =
+      some false := by
+  decide +kernel
+
+/-- the decision theorem applied: from the kernel-evaluated verdicts, `[0,1]²` is coverable by
+`[1/2,2]×[-3,5/4]` with slack `(1/4,1/8)` over `ℝ` and *not* coverable with slack `(1/4,11/8)` -/
+example : Coverable (box [0, 0] [1, 1]) (box [1/2, -3] [2, 5/4]) [[1, 0], [0, 1]] [1/4, 1/8] ∧
+    ¬ Coverable (box [0, 0] [1, 1]) (box [1/2, -3] [2, 5/4]) [[1, 0], [0, 1]] [1/4, 11/8] := by
+  have hW : ∀ w ∈ ([[1, 0], [0, 1]] : Mat), w.length = ([0, 0] : Vec).length := by decide
+  constructor
+  · obtain ⟨s, hs, h⟩ := (rect_isCovered_iff [[1, 0], [0, 1]] [0, 0] [1, 1] [1/2, -3] [2, 5/4]
+      [1/4, 1/8] rfl rfl rfl rfl hW).1.1 (by decide +kernel)
+    cases hs; exact h
+  · obtain ⟨s, hs, h⟩ := (rect_isCovered_iff [[1, 0], [0, 1]] [0, 0] [1, 1] [1/2, -3] [2, 5/4]
+      [1/4, 11/8] rfl rfl rfl rfl hW).2.1.1 (by decide +kernel)
+    cases hs; exact h
+
+/-- … and conversely a semantic fact forces the verdict: the unit box is coverable by itself
+(`z = z'`), so the model must answer `1` -/
+example : rectIsCovered [[1, 0], [0, 1]] [0, 0] [1, 1] [0, 0] [1, 1] [0] = some .yes := by
+  have hW : ∀ w ∈ ([[1, 0], [0, 1]] : Mat), w.length = ([0, 0] : Vec).length := by decide
+  refine (rect_isCovered_iff [[1, 0], [0, 1]] [0, 0] [1, 1] [0, 0] [1, 1] [0] rfl rfl rfl rfl
+    hW).1.2 ⟨[0, 0], rfl, [0, 0], ?_, [0, 0], ?_, ?_⟩
+  · simp [box, InBox]
+  · simp [box, InBox]
+  · intro w hw
+    simp only [List.mem_cons, List.not_mem_nil, or_false] at hw
+    rcases hw with rfl | rfl <;> simp [rsub]
+
+/-- the active-set search on a polyhedron with a redundant (linearly dependent) active row: the
+nearest point of `{x ≥ 1, y ≥ 1, x + y ≥ 2}` to the origin is `(1,1)` -/
+example : (nearest 2 [⟨[1, 0], 1⟩, ⟨[0, 1], 1⟩, ⟨[1, 1], 2⟩] [0, 0]).map (·.1) = some [1, 1] := by
   decide +kernel
 
 end VOPy.C10
